@@ -1,6 +1,7 @@
 from __future__ import annotations
 
 import concurrent.futures as concurrent
+import copy
 import functools
 import gzip
 import inspect
@@ -25,14 +26,24 @@ def named_product(**items: Sequence[Any]):
     return [dict(zip(names, res)) for res in product(*vals)]
 
 
+def _snapshot(learner) -> dict[str, Any]:
+    # A deep copy of the complete state, *including* the pending points and
+    # every private attribute (``__getstate__`` of most learners drops those).
+    # The learned function is shared, it is never modified by a learner.
+    function = learner.__dict__.get("function")
+    memo = {} if function is None else {id(function): function}
+    return copy.deepcopy(learner.__dict__, memo)
+
+
 @contextmanager
 def restore(*learners) -> Iterator[None]:
-    states = [learner.__getstate__() for learner in learners]
+    states = [_snapshot(learner) for learner in learners]
     try:
         yield
     finally:
         for state, learner in zip(states, learners):
-            learner.__setstate__(state)
+            learner.__dict__.clear()
+            learner.__dict__.update(state)
 
 
 def cache_latest(f: Callable) -> Callable:
